@@ -217,6 +217,37 @@ def run(ctx, drv):
             else ctx.disagree("nondominated_sort ranks with a repeated object", {"n": len(ranks)}, ranks, g.split()[1:]))
         ctx.case(reqs[-1], True)
 
+    # call sequences: the same solution objects are sorted again as part of another population (what every generational
+    # algorithm does with parents + offspring, whose copies also inherit attributes); ranks left by an earlier call must not matter
+    import copy as _copy
+    for t in range(150 if ctx.quick() else 2000):
+        n, dirs, constrained, p, sols = gen_population(rng, small=True)
+        if len(sols) < 2:
+            continue
+        pool = list(sols)
+        for call_no in range(3):
+            r = call(C.nondominated_sort, list(pool))
+            inp = {"maximise": list(dirs), "constrained": constrained, "call": call_no,
+                   "population": [[list(map(float, s.objectives)), float(s.constraint_violation)] for s in pool],
+                   "ranks_before_call": None}
+            if isinstance(r, str):
+                ctx.fail("sort-raises", inp, r, "ranks", "core.nondominated_sort")
+                break
+            ranks = [getattr(s, "rank", None) for s in pool]
+            exp = depth_ranks(constrained, dirs, pool)
+            if ranks != exp:
+                ctx.fail("rank-not-domination-depth", dict(inp, note="population overlaps with one sorted before"), ranks, exp, "core.nondominated_sort")
+                break
+            ctx.case(("seq", t, call_no, repr(inp["population"])), call_no > 0 and max(exp, default=0) >= 1)
+            # next population: some survivors (objects with their old ranks), deep copies of some (attributes inherited), newcomers
+            keep = [s for s in pool if rng.random() < 0.6]
+            kids = [_copy.deepcopy(s) for s in pool if rng.random() < 0.3]
+            _, _, _, _, fresh = gen_population(rng, small=True)
+            fresh = [mk_sol(p, [float(rng.choice([0, 1, 2, 3])) for _ in range(n)], float(rng.choice([0, 0, 1])) if constrained else 0.0) for _ in range(rng.randrange(1, 5))]
+            pool = keep + kids + fresh
+            rng.shuffle(pool)
+    ctx.count("call_sequences", 150 if ctx.quick() else 2000)
+
     if drv.ok:
         out = drv.batch(reqs)
         for g, fn in zip(out, post):
